@@ -50,3 +50,11 @@ Print Assumptions C19_detrend0_kills_constant.
 Print Assumptions C19_detrend_orthogonal_to_polynomials.
 Print Assumptions C19_detrend_kills_polynomials.
 Print Assumptions C19_detrend_idempotent.
+Theorem C19_rms_homogeneous : forall (k : R) pts, trapz RA (map (fun p => (fst p, (k * snd p)%R)) pts) 0%R = (k * trapz RA pts 0)%R.
+Proof. exact trapz_scale. Qed.
+Theorem C19_trapezoid_exact_for_affine_integrand : forall (a b : R) (fs : list R) (f0 : R),
+  trapz RA (map (fun f => (f, (a + b * f)%R)) (f0 :: fs)) 0%R =
+  (a * (last fs f0 - f0) + b * (last fs f0 * last fs f0 - f0 * f0) / 2)%R.
+Proof. exact trapz_affine_exact. Qed.
+Print Assumptions C19_rms_homogeneous.
+Print Assumptions C19_trapezoid_exact_for_affine_integrand.
